@@ -680,9 +680,9 @@ Lemma list_to_map_omap (g : Z -> option Z) l k :
   = if decide (k ∈ l) then g k else None.
 Proof.
   induction l as [|a l IH].
-  - simpl. case_decide as Hin; [apply elem_of_nil in Hin; contradiction|]. apply lookup_empty.
-  - simpl. destruct (g a) as [v|] eqn:Ga.
-    + simpl. destruct (decide (k = a)) as [->|N].
+  - case_decide as Hin; [apply elem_of_nil in Hin; contradiction|]. apply lookup_empty.
+  - cbn [omap list_omap]. destruct (g a) as [v|] eqn:Ga.
+    + rewrite list_to_map_cons. destruct (decide (k = a)) as [->|N].
       * rewrite lookup_insert. case_decide as Hin; [congruence|]. exfalso. apply Hin, elem_of_cons. auto.
       * rewrite lookup_insert_ne by congruence. rewrite IH.
         case_decide as Hin; case_decide as Hin'; try reflexivity; exfalso.
